@@ -31,9 +31,13 @@ const (
 	// it; whatever it answers, its budget must not grow)
 	rNeg1    = nRKinds
 	rNeg1000 = nRKinds + 1
+	// an error that wraps io.EOF without being it (a connection that was cut): it passes through as it is
+	rWrapEOF = nRKinds + 2
 )
 
-var rKindNames = []string{"full", "short1", "(0,nil)", "data+EOF", "data+err", "(0,err)", "(-1,nil)", "(-1000,nil)"}
+var errCut = fmt.Errorf("connection aborted: %w", io.EOF)
+
+var rKindNames = []string{"full", "short1", "(0,nil)", "data+EOF", "data+err", "(0,err)", "(-1,nil)", "(-1000,nil)", "data+wrapped EOF"}
 
 var errTemp = errors.New("temporary failure")
 
@@ -102,6 +106,10 @@ func (s *scriptReader) Read(p []byte) (int, error) {
 		err = errTemp
 	case rErr:
 		err = errTemp
+	case rWrapEOF:
+		m := min(len(p), len(rest))
+		n = copy(p[:m], rest)
+		err = errCut
 	case rNeg1, rNeg1000:
 		s.lastN, s.lastErr = map[int]int{rNeg1: -1, rNeg1000: -1000}[kind], nil
 		return s.lastN, nil
@@ -518,7 +526,7 @@ func TestReader(t *testing.T) {
 
 	// wrapped readers that return a negative count now and then
 	{
-		kinds := []int{rFull, rShort, rNeg1, rNeg1000}
+		kinds := []int{rFull, rShort, rNeg1, rNeg1000, rWrapEOF}
 		bufs3 := []int{1, 2, 8}
 		nk, nb3 := gen.PowInt(len(kinds), 4), gen.PowInt(len(bufs3), 4)
 		mon.Parallel(7*8*nk*nb3, func(w, lo, hi int) {
@@ -568,6 +576,67 @@ func TestReader(t *testing.T) {
 		}
 		r.Eval(ce)
 		r.Count("reader_io_copy_calls", ce)
+	}
+	// the standard library's own readers and writers as concrete types (no monitor inside them, but what is left
+	// in the source afterwards shows how much was taken out of it)
+	{
+		var se int64
+		type lenner interface {
+			io.Reader
+			Len() int
+		}
+		for streamLen := 0; streamLen <= 12; streamLen++ {
+			for limit := 0; limit <= 13; limit++ {
+				for kind := 0; kind < 3; kind++ {
+					for _, bufs := range [][]int{{64}, {1, 1, 1, 1, 1, 1, 1, 1, 1, 1, 1, 1, 1, 1, 1}, {3, 5, 2, 7, 64}, {0, 4, 0, 4, 4, 4}} {
+						data := stream(streamLen)
+						var src lenner
+						switch kind {
+						case 0:
+							src = bytes.NewBuffer(bytes.Clone(data))
+						case 1:
+							src = bytes.NewReader(data)
+						default:
+							src = strings.NewReader(string(data))
+						}
+						lr := ioutil.LimitReader(src, uint64(limit))
+						var got []byte
+						what := ""
+						for i, sz := range append(bufs, 8, 8) {
+							p := make([]byte, sz)
+							n, err := lr.Read(p)
+							se++
+							got = append(got, p[:max(n, 0)]...)
+							var le *ioutil.LimitError
+							switch {
+							case n < 0 || n > sz:
+								what = fmt.Sprintf("call %d: n=%d for a buffer of %d", i, n, sz)
+							case len(got) > limit:
+								what = fmt.Sprintf("call %d: %d bytes delivered with limit %d", i, len(got), limit)
+							case len(got)-n >= limit && (n != 0 || !errors.As(err, &le) || le.Limit != uint64(limit)):
+								what = fmt.Sprintf("call %d after the limit of %d was delivered: (%d, %v), want (0, *LimitError)", i, limit, n, err)
+							case len(got)-n < limit && errors.As(err, &le):
+								what = fmt.Sprintf("call %d: *LimitError after only %d of %d bytes", i, len(got)-n, limit)
+							}
+							if what != "" {
+								break
+							}
+						}
+						if what == "" && !bytes.HasPrefix(data, got) {
+							what = fmt.Sprintf("delivered %q is not a prefix of %q", got, data)
+						}
+						if what == "" && src.Len() != streamLen-len(got) {
+							what = fmt.Sprintf("%d bytes were delivered but %d of the %d are gone from the source", len(got), streamLen-src.Len(), streamLen)
+						}
+						if what != "" {
+							r.Violation(fmt.Sprintf("reader-std:%d:%d:%d:%v", kind, streamLen, limit, bufs), fmt.Sprintf("LimitReader(%s of %d bytes, n=%d), buffers %v: %s", []string{"*bytes.Buffer", "*bytes.Reader", "*strings.Reader"}[kind], streamLen, limit, bufs, what), map[string]any{"std_source": kind, "stream_len": streamLen, "limit": limit, "buf_sizes": bufs})
+						}
+					}
+				}
+			}
+		}
+		r.Eval(se)
+		r.Count("reader_std_source_calls", se)
 	}
 	// sources that report their length and are still being filled when they are wrapped
 	{
@@ -621,7 +690,7 @@ func TestReader(t *testing.T) {
 			}
 			for j := 0; j < 3+rng.IntN(6); j++ {
 				c.Calls = append(c.Calls, nestCall{Node: rng.IntN(k), Buf: []int{1, 2, 3, 8}[rng.IntN(4)]})
-				c.Script = append(c.Script, []int{rFull, rFull, rShort, rDataEOF, rDataErr, rErr, rZero, rFull, rShort, rNeg1, rNeg1000}[rng.IntN(11)])
+				c.Script = append(c.Script, []int{rFull, rFull, rShort, rDataEOF, rDataErr, rErr, rZero, rFull, rShort, rNeg1, rNeg1000, rWrapEOF}[rng.IntN(12)])
 			}
 			what, calls := runNested(c)
 			evals += int64(calls)
